@@ -92,4 +92,12 @@ META.update({
         technique="property-based testing (rapid): generated concurrent scenarios with harness-owned gates and cancellation points, history invariants (in-flight meter, permit conservation probe)",
     ),
 })
+META.update({
+    "C04": dict(
+        text="Property testing of the breaker under concurrent executions on a frozen virtual clock, with the schedule owned by the harness where it matters: a generated batch races against the closing breaker (anything submitted after OnOpen was observed must be refused with ErrOpen and never reach the function, however it is wrapped); executions against the open breaker never get through; after the clock jumps past the delay, trials are submitted one by one with the reference breaker in lock-step, or all at once racing for permits (exactly the trial capacity may enter); trials end by result, error, timeout, cancellation or a rejection further in, are completed in a generated order with the model in lock-step, and at quiescence the free trial permits are probed. Sampling of schedules, not proof.",
+        design_ref="DESIGN.md section 6, C04",
+        note="Trusts the reference breaker (harness/cbmodel) and the clock hook. The half-open bound is claimed only when nothing admitted before opening is in flight (the harness enforces quiescence). Data races on the breaker's state are C14's subject (race detector).",
+        technique="property-based testing (rapid): generated concurrent scenarios with harness-owned gates on virtual time, admission invariants plus a reference-model lock-step over the serialised completions",
+    ),
+})
 NOT_APPLICABLE = [dict(property_id=p, reason="check not built yet in this session (work in progress; DESIGN.md section 6 describes the planned property-based check)") for p in ALL if p not in META]
